@@ -71,10 +71,16 @@ def _chain(draw):
 
 @st.composite
 def _contact(draw):
-    ns = draw(st.integers(1, 2))
+    ns = draw(st.sampled_from([1, 2, 2, 3]))
+    # a third of the scenes with several spheres list a frictional contact that is not persistent (open, moving
+    # sideways) before frictional persistent ones: the active friction set is then not a leading block of the list
+    mixed_order = ns > 1 and draw(st.integers(0, 2)) == 0
     spheres = []
     for i in range(ns):
-        state = draw(st.sampled_from(["open", "resting", "resting", "sliding", "sliding"]))
+        if mixed_order:
+            state = "open" if i == 0 else draw(st.sampled_from(["resting", "sliding"]))
+        else:
+            state = draw(st.sampled_from(["open", "resting", "resting", "sliding", "sliding"]))
         r = draw(gen.f(0.1, 0.5))
         b = draw(build.rigid_body(unit=True))
         b["theta"] = (np.eye(3) * 0.4 * b["mass"] * r * r).tolist()
@@ -90,7 +96,8 @@ def _contact(draw):
         else:
             b["v"] = [draw(gen.f(0.3, 2.0)) * draw(st.sampled_from([1, -1])), draw(gen.f(-1, 1)), 0.0]
             b["omega"] = [draw(gen.f(-2, 2)) for _ in range(3)] if draw(st.booleans()) else [0.0] * 3
-        spheres.append({"body": b, "radius": r, "state": state, "mu": draw(st.sampled_from([0.0, 0.2, 0.5, 0.8])),
+        spheres.append({"body": b, "radius": r, "state": state,
+                        "mu": draw(st.sampled_from([0.2, 0.5, 0.8] if mixed_order else [0.0, 0.2, 0.5, 0.8])),
                         "e_N": draw(gen.f(0, 1))})
     spec = {"kind": "contact", "spheres": spheres, "gravity": [draw(gen.f(-2, 2)), draw(gen.f(-2, 2)), -G],
             "spring": draw(st.booleans()), "k": draw(gen.f(1, 30))}
@@ -101,7 +108,7 @@ def _contact(draw):
         # ceiling, walls, and an incline whose normal has only non-positive components
         st.sampled_from([[3.141592653589793, 0.0, 0.0], [0.0, -1.5707963267948966, 0.0], [1.5707963267948966, 0.0, 0.0],
                          [2.2, 0.6, 0.0], [2.6, -0.9, 0.3]])))
-    if draw(st.integers(0, 3)) == 0:
+    if not mixed_order and draw(st.integers(0, 3)) == 0:
         # the plane tilts in time about an in-plane axis (theta(0) = 0); the spheres move with it. Frictionless only: the
         # slip kinematics of Sphere2Plane are stated for planes of constant orientation (C06)
         a = draw(gen.f(0.0, 6.28))
@@ -456,6 +463,10 @@ def check(spec):
     res.nontrivial = bool(info["has_constraint"] and info["has_special"])
     res.label(f"kind:{kind}")
     if kind == "contact":
+        sp_ = spec["spheres"]
+        res.label(f"contacts:{len(sp_)}", "first_of_several:" + sp_[0]["state"] if len(sp_) > 1 else "single")
+        if len(sp_) > 1 and sp_[0]["state"] == "open" and sp_[0]["mu"] > 0 and any(x["state"] != "open" and x["mu"] > 0 for x in sp_[1:]):
+            res.label("contacts:open_frictional_listed_before_persistent_frictional")
         res.label("plane:tilting" if spec.get("plane_spin") else "plane:constant",
                   "plane:placed" if np.any(np.array(spec.get("placement", [0, 0, 0])) != 0) else "plane:horizontal")
     if "actuator" in spec:
